@@ -184,7 +184,7 @@ fn make_cfg(profile: &str, tier: Tier, t: &mut Tape) -> Cfg {
 }
 
 fn server_names(t: &mut Tape, n: usize) -> Vec<String> {
-    let pool = ["alpha.example", "beta.example:8448", "10.1.2.3", "gamma.example", "[2001:db8::1]", "delta.example:443", "[::1]:8008", "epsilon.test"];
+    let pool = ["alpha.example", "beta.example:8448", "10.1.2.3", "gamma.example", "[2001:db8::1]", "delta.example:443", "[::1]:8008", "epsilon.test", "alpha.example:8448", "gamma.example:443"];
     let mut idx: Vec<usize> = (0..pool.len()).collect();
     t.shuffle(&mut idx);
     idx.into_iter().take(n).map(|i| pool[i].to_string()).collect()
